@@ -16,8 +16,8 @@ SIM_SRC_c19 := sim/alloc_seam.cpp
 SIM_SRC_c20 := sim/alloc_seam.cpp
 SIM_SRC_c23 := sim/rand_seam.cpp
 SIM_SRC_c32 := sim/rand_seam.cpp
-LDFLAGS_c23 := -Wl,--wrap=rand
-LDFLAGS_c32 := -Wl,--wrap=rand
+LDFLAGS_c23 := -Wl,--wrap=rand -Wl,--wrap=__gmpz_urandomm
+LDFLAGS_c32 := -Wl,--wrap=rand -Wl,--wrap=__gmpz_urandomm
 
 .PHONY: all asan c41
 all: asan c41
